@@ -218,22 +218,37 @@ func checkC14(c *Ctx, r *Report) {
 
 	// reservation: the request literal's ReservationID from the Reserve call's result
 	r.Rule("reservation", "partial reads use the reservation ID obtained at the start of this walk", 1)
-	okRes := false
+	// every store to the request's reservation ID carries this walk's reservation, and one of
+	// them precedes the first request: header reads and body reads alike run under it, so a
+	// cancelled reservation is noticed whichever request comes next
+	okRes, nRes := false, 0
 	viewInstrs(walk, func(in ssa.Instruction) {
-		if sel, _, st, ok := storeSel(in); ok && strings.HasSuffix(sel, "ReservationID") && strings.Contains(sel, "Req") {
-			if ld, isLd := st.Val.(*ssa.UnOp); isLd {
-				for _, a := range viewAPs(walk, ld.X) {
-					ex, isEx := a.Root.(*ssa.Extract)
-					if !isEx || a.SelString() != "ReservationID" {
-						continue
-					}
-					if call, isCall := ex.Tuple.(*ssa.Call); isCall && call.Call.IsInvoke() && call.Call.Method.Name() == "ReserveSDRRepository" && mustPrecede(walk, call, hdrSend) {
-						okRes = true
-					}
+		sel, _, st, ok := storeSel(in)
+		if !ok || !strings.HasSuffix(sel, "ReservationID") || !strings.Contains(sel, "Req") {
+			return
+		}
+		nRes++
+		fromReserve := false
+		if ld, isLd := st.Val.(*ssa.UnOp); isLd {
+			for _, a := range viewAPs(walk, ld.X) {
+				ex, isEx := a.Root.(*ssa.Extract)
+				if !isEx || a.SelString() != "ReservationID" {
+					continue
+				}
+				if call, isCall := ex.Tuple.(*ssa.Call); isCall && call.Call.IsInvoke() && call.Call.Method.Name() == "ReserveSDRRepository" && mustPrecede(walk, call, hdrSend) {
+					fromReserve = true
 				}
 			}
 		}
+		if !fromReserve {
+			nRes = -1000 // a store of something else (a constant, say): some requests run without the reservation
+			return
+		}
+		if mustPrecede(walk, st, hdrSend) {
+			okRes = true
+		}
 	})
+	okRes = okRes && nRes > 0
 	r.Check(okRes, name+"|reservation ID", walk.Pos(), "from ReserveSDRRepository at the start of the walk", "Get SDR requests do not carry the reservation ID returned by this walk's Reserve SDR Repository")
 
 	// (3) chain
@@ -301,7 +316,21 @@ func checkC14(c *Ctx, r *Report) {
 	r.Check(okExit, name+"|loop exit", walk.Pos(), "loop ends at record ID 0xFFFF", "the walk's loop does not test the next record ID against 0xFFFF")
 
 	r.Rule("errors-abort", "every return other than the final one returns a nil map and a non-nil error; the final return is reached only through the 0xFFFF exit", 3)
+	// the records of an abandoned walk must not survive: the map is allocated by the walk itself
+	freshMap := true
+	mos := viewOrigins(walk, mu.Map)
+	for _, o := range mos {
+		switch o.(type) {
+		case *ssa.MakeMap:
+		default:
+			freshMap = false
+		}
+	}
+	r.Check(freshMap && len(mos) > 0, name+"|fresh result per walk", mu.Pos(), "each walk fills a map of its own", "records are added to a map that outlives the walk: when a walk is abandoned (reservation lost, repository changed) its records survive into the result")
 	for _, ret := range returnsOf(walk) {
+		if len(ret.Results) != 2 {
+			continue
+		}
 		v0 := ret.Results[0]
 		if isNilConst(v0) {
 			ok := !isNilConst(ret.Results[1])
